@@ -75,6 +75,44 @@ class RecordingMT(numpy.random.Generator):
         return r
 
 
+class ScriptedGenerator(numpy.random.Generator):
+    """a numpy Generator whose `uniform` hands out boundary values on purpose: exactly 0.0, exactly the
+    crossover probability of the marker (tie: `rnd < xoprob` is False), the float just below it (crossover),
+    1 - 2^-53, and ordinary values — chosen by a seeded python PRNG; everything it returns is logged"""
+
+    def __init__(self, seed, xo):
+        super().__init__(numpy.random.PCG64(seed))
+        import random as _random
+        self._r = _random.Random(seed)
+        self._xo = numpy.asarray(xo, dtype=float)
+        self.log = []
+        self.nties = 0
+        self.nzero = 0
+
+    def uniform(self, low=0.0, high=1.0, size=None):
+        out = numpy.empty(size, dtype=float)
+        nr, nc = out.shape
+        for i in range(nr):
+            for j in range(nc):
+                c = self._r.random()
+                x = self._xo[j]
+                if c < 0.2:
+                    v = 0.0
+                    self.nzero += 1
+                elif c < 0.45:
+                    v = x if x < 1.0 else 0.5          # tie with the crossover probability
+                    self.nties += 1
+                elif c < 0.6:
+                    v = float(numpy.nextafter(x, 0.0)) if x > 0.0 else 0.0
+                elif c < 0.7:
+                    v = 1.0 - 2.0 ** -53
+                else:
+                    v = self._r.random()
+                out[i, j] = v
+        self.log.append(out.copy())
+        return out
+
+
 RNGS = {"pcg64": RecordingGenerator, "mt19937": RecordingMT, "randomstate": RecordingRandomState}
 
 
@@ -89,7 +127,8 @@ class C10(Prop):
             "with 1-3 traits, effects of both signs and zeros, 1-3 fixed effects; fully fixed populations at "
             "every boundary size.  programme: founders -> [select_taxa -> one of the seven mating protocols with "
             "random cross configuration, counts and selfing depth] x 1-3 generations with a real seeded "
-            "generator (Generator/PCG64, Generator/MT19937 or RandomState), progeny sizes drawn from the boundary list; limits, breeding values and raw genotypes "
+            "generator (Generator/PCG64, Generator/MT19937, RandomState) or a scripted Generator subclass whose uniforms hit "
+            "exactly 0.0, exactly xoprob[j] (tie), the float just below it and 1-2^-53, progeny sizes drawn from the boundary list; limits, breeding values and raw genotypes "
             "recorded for founders, every selected parent set and every progeny set.  Non-trivial = some "
             "locus polymorphic and some effect non-zero (static) / at least one allele lost along the history "
             "(programme)")
@@ -199,7 +238,7 @@ class C10(Prop):
             n = sum(a * b for a, b in zip(nm_l, np_l))
         return {"kind": "programme", "nv": nv, "ntrait": ntrait, "U": U, "beta": beta, "xo": canon.enc(xo),
                 "founders": G, "n0": n0, "seed": rng.randrange(2 ** 31), "gens": gens,
-                "rng": rng.choice(["pcg64", "pcg64", "mt19937", "randomstate"])}
+                "rng": rng.choice(["pcg64", "scripted", "scripted", "mt19937", "randomstate"])}
 
     def corpus(self):
         out = []
@@ -266,7 +305,7 @@ class C10(Prop):
                 c = self._programme(rng, tier)
                 k = sum(1 for x in out if x["kind"] == "programme")
                 if k < 7:       # every protocol and every generator type in every run
-                    c["rng"] = ["pcg64", "mt19937", "randomstate"][k % 3]
+                    c["rng"] = ["scripted", "pcg64", "mt19937", "randomstate"][k % 4]
                     g0 = c["gens"][0]
                     prot = sorted(PROTOCOLS)[k]
                     nsel = len(g0["select"])
@@ -398,7 +437,10 @@ class C10(Prop):
         cur = pg.DensePhasedGenotypeMatrix(numpy.array(case["founders"], dtype="int8").reshape(2, case["n0"], nv),
                                            vrnt_xoprob=xo, vrnt_chrgrp=numpy.ones(nv, dtype="int64"),
                                            vrnt_phypos=numpy.arange(nv, dtype="int64"))
-        rng = RNGS[case.get("rng", "pcg64")](case["seed"])
+        if case.get("rng") == "scripted":
+            rng = ScriptedGenerator(case["seed"], xo)
+        else:
+            rng = RNGS[case.get("rng", "pcg64")](case["seed"])
         pops = [{"nt": int(cur.ntaxa), "G": canon.enc(cur.mat)}]
         obs = [self._observe(gm, cur, cur.mat_asformat("{0,1,2}"), 2)]
         matings = []
@@ -417,8 +459,10 @@ class C10(Prop):
             obs.append(self._observe(gm, cur, cur.mat_asformat("{0,1,2}"), 2))
             ndraw = sum(d.size for d in draws)
             matings.append({"ndraws": ndraw, "parents_untouched": bool((sel_before == sel.mat).all()),
-                            "draws": canon.enc(draws) if ndraw <= MAX_DRAWS_FUNCTIONAL else None})
-        return {"gens": obs, "pops": pops, "matings": matings}
+                            "draws": canon.enc(draws) if ndraw <= (4 * MAX_DRAWS_FUNCTIONAL if case.get("rng") == "scripted"
+                                                                   else MAX_DRAWS_FUNCTIONAL) else None})
+        return {"gens": obs, "pops": pops, "matings": matings,
+                "ties": getattr(rng, "nties", 0), "zeros": getattr(rng, "nzero", 0)}
 
     # ------------------------------------------------------------------ model requests
     @staticmethod
@@ -653,6 +697,19 @@ class C10(Prop):
                     phase = 1 - phase
             return gamete
 
+        def meiosis_crossover_on_tie(geno, sel, xoprob, rng):
+            rnd = rng.uniform(0, 1, (len(sel), len(xoprob)))
+            gamete = numpy.empty((len(sel), len(xoprob)), dtype=geno.dtype)
+            for i, s in enumerate(sel):
+                xoix = numpy.flatnonzero(rnd[i] <= xoprob)         # `<=`: a tie (and u = 0 at xoprob = 0) crosses over
+                phase, stix = 0, 0
+                for spix in xoix:
+                    gamete[i, stix:spix] = geno[phase, s, stix:spix]
+                    stix = spix
+                    phase = 1 - phase
+                gamete[i, stix:] = geno[phase, s, stix:]
+            return gamete
+
         def mate_with(meio):
             def mat_mate(fgeno, mgeno, fsel, msel, xoprob, rng):
                 return numpy.stack([meio(fgeno, fsel, xoprob, rng), meio(mgeno, msel, xoprob, rng)])
@@ -687,6 +744,7 @@ class C10(Prop):
             ("usl_location_added_twice", lambda: patch((GM, "usl_numpy", usl_loc_twice))),
             ("afreq_reciprocal_form_D1", lambda: patch((UG, "afreq", u_afreq_recip), (PG, "afreq", p_afreq_recip))),
             ("usl_ndarray_path_reciprocal_form", lambda: patch((GM, "usl", usl_array_recip))),
+            ("meiosis_crossover_on_tie", lambda: patch(*mate_with(meiosis_crossover_on_tie))),
             ("meiosis_mutates_last_segment", lambda: patch(*mate_with(meiosis_mutating))),
             ("meiosis_last_segment_not_copied", lambda: patch(*mate_with(meiosis_last_segment_dropped))),
             ("selection_lets_an_immigrant_in", lambda: patch((PG, "select_taxa", select_immigrant))),
